@@ -86,6 +86,9 @@ static void exec_op(Task* t, OpRec& rec, bool preempt) {
     switch (op.kind) {
     case OP_CONFIG:
         E.fill = (int)(op.a % 4); E.fill_seed = op.b; E.kdf_mode = (int)((op.a >> 8) & 1);
+#ifndef POLYSIM_LIB_ASSERTS
+        E.norm_full_len = ((op.a >> 9) & 1) != 0;
+#endif
         break;
     case OP_INJECT: {
         size_t pg = (size_t)sysconf(_SC_PAGESIZE);
@@ -219,7 +222,7 @@ static bool owns(const std::string& prop, int a, bool crypt_related) {
     if (prop == "C10") return a == A_GATE || a == A_ENABLE_RET || a == A_GETF || a == A_FEATBITS;
     if (prop == "C11") return a == A_BIRTHDAY_CREATE || a == A_BIRTHDAY_KEEP;
     if (prop == "C12") return a == A_KDF_CRYPT || a == A_CRYPT_STATE || a == A_ISENC ||
-                              (crypt_related && (a == A_STATUS || a == A_GATE || a == A_STORE || a == A_PHRASE || a == A_CANON || a == A_FEATBITS || a == A_BIRTHDAY_KEEP));
+                              (crypt_related && (a == A_STATUS || a == A_GATE || a == A_STORE || a == A_PHRASE || a == A_CANON || a == A_FEATBITS || a == A_BIRTHDAY_KEEP || a == A_KDF_KEYGEN));
     if (prop == "C15") return a == A_LEDGER || a == A_MEMSTATUS || a == A_PRODUCED || a == A_FREENULL;
     if (prop == "C16") return a == A_W1 || a == A_W2;
     if (prop == "C18") return a == A_DEPS || a == A_RAND19 || a == A_SECRET_CREATE || a == A_BIRTHDAY_CREATE;
@@ -240,17 +243,35 @@ struct Checker {
     bool crypt_related = false;
     std::vector<Needle> needles;
 
+    // Returns true if the caller should stop evaluating this operation. A mismatch in an aspect that the property
+    // under check does not own is counted and the model is re-synchronised from the library afterwards (resync);
+    // it can only occur on a tree that violates some other property, so it cannot cause an alarm on correct code.
     bool fail(int aspect, int op, const std::string& msg) {
-        if (v.found || !foreign.empty()) return true;
+        if (v.found) return true;
         if (owns(prop, aspect, crypt_related)) {
             v.found = true; v.prop = prop; v.oracle = "model"; v.cls = ASPECT_NAMES[aspect]; v.op = op; v.msg = msg;
-        } else {
-            foreign = ASPECT_NAMES[aspect];
-            st->add(std::string("foreign_mismatch_") + ASPECT_NAMES[aspect]);
+            return true;
         }
+        if (foreign.empty()) st->add(std::string("foreign_mismatch_") + ASPECT_NAMES[aspect]);
+        foreign = ASPECT_NAMES[aspect];
         return true;
     }
     bool stop() const { return v.found || !foreign.empty(); }
+    // after a foreign mismatch: take the library's own view of the slot so that the history can continue
+    void resync(OpRec& rec, Task* t) {
+        foreign.clear();
+        auto key = std::make_pair(rec.task, rec.op.slot & 7);
+        polyseed_data* p = (polyseed_data*)t->slots[rec.op.slot & 7];
+        if (rec.op.kind == OP_ENABLE) mask = (unsigned)rec.op.a & 7;
+        if (!p) { seeds.erase(key); return; }
+        u8 st32[32]; polyseed_store(p, st32);
+        AbsSeed got;
+        if (model::parse(st32, got) == ST_OK) seeds[key] = got; else seeds.erase(key);
+        if (is_ctor(rec.op.kind) && rec.status == ST_OK && rec.produced) {
+            std::vector<int> mine; for (auto& b : E.blocks) if (b.op == rec.idx && b.live) mine.push_back(b.id);
+            seedblocks[key] = mine;
+        }
+    }
 
     static std::string ser(const AbsSeed& s) { u8 b[32]; model::serialise(s, b); return std::string((char*)b, 32); }
     bool is_crypt_image(const AbsSeed& s) { return crypt_images.count(ser(s)) > 0; }
@@ -345,13 +366,15 @@ struct Checker {
         bool have = it != seeds.end();
         if (have && is_crypt_image(it->second)) crypt_related = true;
         // ---- checks that apply to every operation
+        bool soft = false;      // a foreign mismatch among the generic checks does not end the evaluation of this operation
         for (auto& e : rec.ev) {
+            if (soft) break;
             if (e.stale) {
                 std::string why = e.gen < 0 ? "libc was used although the corresponding dependency is injected" :
                     (e.gen != E.cur_gen ? strf("a function of injection generation %d was called, the current one is %d", e.gen, E.cur_gen) : "an optional dependency that was NULL at the latest injection was called (stale pointer)");
-                fail(A_DEPS, rec.idx, why + ": " + e.str()); return;
+                fail(A_DEPS, rec.idx, why + ": " + e.str()); if (v.found) return; soft = true; continue;
             }
-            if (e.kind == EV_FORBIDDEN) { fail(A_DEPS, rec.idx, "the library consulted " + e.name + "()"); return; }
+            if (e.kind == EV_FORBIDDEN) { fail(A_DEPS, rec.idx, "the library consulted " + e.name + "()"); if (v.found) return; soft = true; }
         }
         if (E.stray_events) { fail(A_STRAY, rec.idx, "dependency called outside any operation"); return; }
         if (rec.input_modified) { fail(A_INPUT, rec.idx, "the caller's input buffer was modified"); return; }
@@ -362,7 +385,11 @@ struct Checker {
             if (rec.status == ST_OK && is_ctor(op.kind) && !rec.produced) { fail(A_PRODUCED, rec.idx, "status OK but no seed was returned"); return; }
         }
         ledger(rec, t);
-        if (stop()) return;
+        if (v.found) return;
+        std::string generic_foreign = foreign; foreign.clear();
+        struct Restore { std::string& f; std::string g; ~Restore() { if (f.empty()) f = g; } } restore{foreign, generic_foreign};
+        // a model seed may be missing after an earlier foreign mismatch: nothing can be predicted for this operation then
+        if (needs_seed(op.kind) && !have) { foreign = "untracked-seed"; return; }
 
         auto expect_status = [&](int exp) -> bool {
             if (rec.alloc_failed) return rec.status == ST_MEMORY;    // already checked above
@@ -388,7 +415,7 @@ struct Checker {
             bytes delivered; u64 requested = 0; std::vector<u64> readings;
             for (auto& e : rec.ev) {
                 if (e.kind == EV_RAND) { requested += e.n; delivered.insert(delivered.end(), e.a.begin(), e.a.end()); }
-                if (e.kind == EV_TIME || e.kind == EV_LIBC_TIME) readings.push_back(e.reading);
+                if ((e.kind == EV_TIME || e.kind == EV_LIBC_TIME) && !e.stale) readings.push_back(e.reading);     // only the clock of the current injection counts
             }
             if (requested != 19) { fail(A_RAND19, rec.idx, strf("polyseed_create took %llu bytes from the random source, expected 19", (unsigned long long)requested)); return; }
             u8 st32[32]; polyseed_store((polyseed_data*)rec.seed_ptr, st32);
@@ -399,7 +426,7 @@ struct Checker {
             memcpy(want.secret, delivered.data(), 19); want.secret[18] &= 0x3F;
             if (memcmp(want.secret, got.secret, 19)) { fail(A_SECRET_CREATE, rec.idx, "secret " + hexs(got.secret, 19) + " is not the random bytes delivered " + hexs(delivered) + " (top two bits of the last byte dropped)"); return; }
             if (got.features != f) { fail(A_FEATBITS, rec.idx, strf("created seed carries features %u, requested %llu -> %u", got.features, (unsigned long long)op.a, f)); return; }
-            if (readings.empty()) { fail(A_BIRTHDAY_CREATE, rec.idx, "polyseed_create did not read the clock"); return; }
+            if (readings.empty()) { fail(A_BIRTHDAY_CREATE, rec.idx, "polyseed_create did not read the clock of the current injection"); return; }
             bool ok = false;
             for (u64 r : readings) if (model::birthday_explained(r, got.birthday)) ok = true;
             if (!ok) { fail(A_BIRTHDAY_CREATE, rec.idx, strf("birthday month %u (=%llu) is not explained by the clock reading %llu", got.birthday, (unsigned long long)(model::EPOCH + got.birthday * model::STEP), (unsigned long long)readings[0])); return; }
@@ -666,7 +693,7 @@ static RunResult run_ops(const Plan& p, const RunOpts& o) {
         else r.st.add("op_skipped");
         ck.after(rec, t);
         if (ck.v.found) { r.v = ck.v; break; }
-        if (!ck.foreign.empty()) { log.line("foreign mismatch: " + ck.foreign); break; }
+        if (!ck.foreign.empty()) { r.st.add("foreign_mismatch_resyncs"); ck.resync(rec, t); }
         if (o.w2 && !rec.skipped && rec.op.kind != OP_INJECT && rec.op.kind != OP_CONFIG) {
             u64 scanned = 0;
             std::string f = scan_stack(t, ck.needles, &scanned);
@@ -847,7 +874,7 @@ static RunResult run_preempt(const Plan& p, const RunOpts& o) {
 RunResult run_plan(const Plan& p, const RunOpts& o) {
     reset_run();
     cleanup_pages();
-    E.cur_gen = -1; E.cur_opt = 0; E.fill = 0; E.fill_seed = 0; E.kdf_mode = 0; E.monitor = false;
+    E.cur_gen = -1; E.cur_opt = 0; E.fill = 0; E.fill_seed = 0; E.kdf_mode = 0; E.monitor = false; E.norm_full_len = false;
     E.stats.c.clear();
     for (int ti = 0; ti < ntasks; ++ti) memset(tasks[ti].slots, 0, sizeof tasks[ti].slots);
     RunResult r = (p.mode == "preempt") ? run_preempt(p, o) : run_ops(p, o);
